@@ -34,6 +34,7 @@ inductive Err where
   | noEnt            -- ENOENT
   | unsupported      -- "unsupported archive format"
   | rename           -- a rename failed
+  | read             -- the archive reader (gzip / tar / zip layer) reported an error
   deriving DecidableEq, Repr
 
 /-- association list, first binding wins; the root `[]` is a directory and is never stored -/
